@@ -302,8 +302,25 @@ def generate(o, _force_pinned=False):
             return int(src.assign(node.id))
         raise KeyError("width " + ast.unparse(node))
 
+    class _MaskToMod(ast.NodeTransformer):
+        """`x & M` with M = 2**k - 1 (a constant or a module constant) keeps the low k bits of a non-negative
+        x: `x % (M + 1)`.  (The key is non-negative: it is read from bytes.)"""
+
+        def visit_BinOp(self, n):
+            self.generic_visit(n)
+            if isinstance(n.op, ast.BitAnd):
+                for a, m in ((n.left, n.right), (n.right, n.left)):
+                    try:
+                        mv = resolve(m)
+                    except Exception:
+                        continue
+                    if mv >= 0 and (mv + 1) & mv == 0:
+                        return ast.BinOp(left=a, op=ast.Mod(), right=ast.BinOp(left=m, op=ast.Add(), right=ast.Constant(value=1)))
+            return n
+
     def clamp():
         ret = [s for s in key_fn().body if isinstance(s, ast.Return)][-1].value
+        ret = ast.fix_missing_locations(_MaskToMod().visit(ret))
         return to_lean(ret, {"int_value": "v", "MAX_INT64": "maxInt64"})
 
     def key_shape():
